@@ -600,9 +600,68 @@ pub fn check_eq(c: &EqCase) -> Outcome {
     Outcome::pass(vect || !same, vec![if same { "same-bytes" } else { "different-bytes" }, if vect { "vectored-involved" } else { "no-vectored" }])
 }
 
+/// A HISTORY of encodes on one thread, through every encoder entry point (`Vec::from(&f)`, `Vec::from(f)`, `Bytes::from(&f)`,
+/// `Bytes::from(f)`, `ws::Message::from(f)`), with Datagram frames whose host exceeds 255 octets in between: those are outside the
+/// encoder's domain (it panics by contract; the panic is caught here, as a task boundary or `catch_unwind` would). Whatever an
+/// encode did before - succeed, or panic half-way - every constructible frame must still encode to exactly the PROTOCOL.md layout.
+#[derive(Clone, Debug, Hash, PartialEq, Eq, serde::Serialize, serde::Deserialize)]
+pub struct HistCase {
+    pub specs: Vec<FSpec>,
+}
+pub fn check_encode_history(c: &HistCase) -> Outcome {
+    let mut bad_before = false;
+    let mut classes = vec![];
+    for (k, spec) in c.specs.iter().enumerate() {
+        let r = spec.to_ref();
+        match rf::encode(&r) {
+            None => {
+                for how in 0..3 {
+                    let _ = vf_common::quiet_catch(|| {
+                        let f = spec.build();
+                        match how {
+                            0 => drop(Vec::<u8>::from(&f)),
+                            1 => drop(Bytes::from(&f)),
+                            _ => drop(penguin_mux::ws::Message::from(f)),
+                        }
+                    });
+                }
+                bad_before = true;
+            }
+            Some(want) => {
+                let got: Vec<(&str, Result<Vec<u8>, String>)> = vec![
+                    ("Vec::from(&frame)", vf_common::quiet_catch(|| Vec::<u8>::from(&spec.build()))),
+                    ("Bytes::from(&frame)", vf_common::quiet_catch(|| Bytes::from(&spec.build()).to_vec())),
+                    ("Vec::from(frame)", vf_common::quiet_catch(|| Vec::<u8>::from(spec.build()))),
+                    ("Bytes::from(frame)", vf_common::quiet_catch(|| Bytes::from(spec.build()).to_vec())),
+                    ("ws::Message::from(frame)", vf_common::quiet_catch(|| match penguin_mux::ws::Message::from(spec.build()) {
+                        penguin_mux::ws::Message::Binary(b) => b.to_vec(),
+                        _ => vec![],
+                    })),
+                ];
+                for (how, g) in got {
+                    match g {
+                        Err(p) => return Outcome::violation(format!("enc-history-panic:{}", spec.class()), format!("{how} of frame {k} of the history ({}) panicked: {p}", spec.class())),
+                        Ok(v) if v != want => {
+                            return Outcome::violation(
+                                format!("enc-history:{}", spec.class()),
+                                format!("{how} of frame {k} of a history of encodes on one thread gives {} but the PROTOCOL.md layout is {} ({})", hex(&v[..v.len().min(48)]), hex(&want[..want.len().min(48)]), if bad_before { "an encode of an out-of-domain Datagram - host > 255 octets, panics by contract - came before it" } else { "all earlier encodes were of constructible frames" }),
+                            )
+                        }
+                        Ok(_) => {}
+                    }
+                }
+                if bad_before {
+                    classes.push("valid-frame-after-a-refused-one");
+                }
+            }
+        }
+    }
+    Outcome::pass(bad_before, classes)
+}
+
 pub fn run(ctx: &Ctx, rep: &mut Report) {
     rep.rule = "G1: frame specs over all opcodes/constructors with boundary-biased u32/u16 and host/payload lengths, hosts being random octets or (one in four) entries of a dictionary of 130 hosts that mean something to some layer (IP literals in every notation, bracketed literals, ports, letter case, trailing dots, IDNA, control characters, maximal DNS names), each of which is also enumerated once in every host-carrying frame kind; non-trivial = variable field at a boundary \
-                (host len 0/1/255, payload len 0..=3, vectored with an empty chunk). G2: byte strings (bounded-exhaustive over a boundary alphabet, mutations of valid \
+                (host len 0/1/255, payload len 0..=3, vectored with an empty chunk). G1b: histories of 2-7 encodes on one thread through all five encoder entry points, with out-of-domain Datagrams (host > 255 octets, the encoder panics by contract, caught) in between: every constructible frame must still encode exactly. G2: byte strings (bounded-exhaustive over a boundary alphabet, mutations of valid \
                 encodings, random with biased first byte); non-trivial = within one byte of a length check (dropping/adding one byte flips validity). \
                 Distinct = distinct case value (hash)."
         .into();
@@ -691,6 +750,18 @@ pub fn run(ctx: &Ctx, rep: &mut Report) {
             o.classes.push("meaningful-host");
             o
         },
+    );
+    // histories of encodes on one thread, out-of-domain Datagrams (host of 256..300 octets: the encoder panics by contract) among them
+    ctx.prop(
+        rep,
+        "encode-history",
+        t.pick(60_000, 1_000_000),
+        200,
+        || {
+            let bad = (b32(), b16(), 256usize..=300, payload(16)).prop_map(|(id, port, n, data)| FSpec::DatagramBorrowed { id, port, host: vec![b'h'; n], data });
+            prop::collection::vec(prop_oneof![4 => fspec(64), 1 => bad], 2..=7).prop_map(|specs| HistCase { specs })
+        },
+        check_encode_history,
     );
     ctx.prop(
         rep,
